@@ -102,7 +102,7 @@ RULE = ('2-5 candidates (5-8 in the `big` share) with multi-character names; ran
         'sets), repeated candidates and the empty ballot; approval and score ballots incl. empty ones; weights from small integers, '
         'zero, Fractions and (rarely) negatives; each profile of 1-7 (big: 6-15) ballots is split into A and B with ballots that occur in both '
         'halves and distinct ballots that share an image; every converter of the quantifier with every rank scorer / subsetter / mode / rounding method, SubsettedVotes at depth 0-3, '
-        'and chains of two or three converters. Non-trivial = at least two ballots in A+B and a non-error result; distinct by request.')
+        'and chains of two or three converters. Candidates as multi-character strings, ints incl. 0, the empty string or Person objects; counts as int / Fraction / Decimal (short and 7 decimals) / dyadic float incl. typed zeros and 2^53, 10^18, 10^30, 10^400; ONE converter object per case called on A, B, A+B and the singles in default / ascending / descending order, optionally after a differently configured sibling object; constituencies optionally named like candidates. Non-trivial = at least two ballots in A+B and a non-error result; distinct by request.')
 NOT_VERIFIED = ['set/dict iteration order of outputs (outputs compare as maps; frozensets are canonical sorted id lists)',
                 'Decimal division of RoundedVotes for Fractions is taken as exact (denominators in the generator are small)',
                 'Person/PoliticalParty objects are modelled by ids; the mapper reads one attribute',
